@@ -676,6 +676,109 @@ Proof.
 Qed.
 
 (* ------------------------------------------------------------------------ *)
+(* Any number of threads.  [sched] names the thread that moves next; a number
+   that names no thread moves nothing.  process::abort() on any thread ends the
+   process. *)
+Fixpoint set_nth (l : list thread) (i : nat) (x : thread) : list thread :=
+  match l, i with
+  | [], _ => []
+  | _ :: l', O => x :: l'
+  | y :: l', S i' => y :: set_nth l' i' x
+  end.
+
+Fixpoint interleave_n (d : design) (sched : list nat) (g : gstate) (ts : list thread)
+  : gstate * list thread :=
+  match sched with
+  | [] => (g, ts)
+  | i :: sched' =>
+      if existsb crashed ts then (g, ts)
+      else match nth_error ts i with
+           | Some t => let '(g', t') := tstep d g t in interleave_n d sched' g' (set_nth ts i t')
+           | None => interleave_n d sched' g ts
+           end
+  end.
+
+(* t' is what t becomes after some number of its own steps, alone *)
+Definition solo_image (d : design) (g : gstate) (t t' : thread) : Prop :=
+  exists n, t' = snd (solo d n g t).
+
+Lemma solo_image_refl d g t : solo_image d g t t.
+Proof. exists O. reflexivity. Qed.
+
+Lemma Forall2_solo_refl d g ts : Forall2 (solo_image d g) ts ts.
+Proof. induction ts as [|t ts IH]; constructor; [apply solo_image_refl|exact IH]. Qed.
+
+Lemma set_nth_plain ts i t' : Forall plain ts -> plain t' -> Forall plain (set_nth ts i t').
+Proof.
+  revert i. induction ts as [|t ts IH]; intros i Hts Ht'; [constructor|].
+  inversion Hts as [|t0 ts0 Ht Hr]; subst. destruct i as [|i]; cbn [set_nth].
+  - constructor; assumption.
+  - constructor; [exact Ht|]. apply IH; assumption.
+Qed.
+
+(* one step of thread i, then solo images of the updated list, are solo images of the original list *)
+Lemma Forall2_solo_step d g ts i t t1 ts' :
+  nth_error ts i = Some t -> tstep d g t = (g, t1) ->
+  Forall2 (solo_image d g) (set_nth ts i t1) ts' -> Forall2 (solo_image d g) ts ts'.
+Proof.
+  revert i ts'. induction ts as [|t0 ts IH]; intros i ts' Hn Et HF; [destruct i; discriminate|].
+  destruct i as [|i]; cbn [nth_error set_nth] in *.
+  - injection Hn as ->. inversion HF as [|x y l l' Hxy Hl]; subst. constructor; [|exact Hl].
+    destruct Hxy as [n ->]. exists (S n). cbn [solo]. rewrite Et. reflexivity.
+  - inversion HF as [|x y l l' Hxy Hl]; subst. constructor; [exact Hxy|]. eapply IH; eassumption.
+Qed.
+
+(* Once the hook is installed, under any schedule of any number of threads each
+   thread is one of its own solo runs and the global state never changes. *)
+Lemma interleaving_n_independent d sched : forall g ts,
+  flag g = true -> Forall plain ts ->
+  exists ts', interleave_n d sched g ts = (g, ts') /\ Forall2 (solo_image d g) ts ts'.
+Proof.
+  induction sched as [|i sched IH]; intros g ts Hf Hp.
+  - exists ts. split; [reflexivity|apply Forall2_solo_refl].
+  - cbn [interleave_n]. destruct (existsb crashed ts).
+    + exists ts. split; [reflexivity|apply Forall2_solo_refl].
+    + destruct (nth_error ts i) as [t|] eqn:En; [|apply IH; assumption].
+      assert (Ht : plain t).
+      { apply nth_error_In in En. rewrite Forall_forall in Hp. apply Hp. exact En. }
+      destruct (tstep_flag_set d g t Ht Hf) as [Hp1 Hg].
+      destruct (tstep d g t) as [g1 t1] eqn:Et. cbn [fst snd] in *. subst g1.
+      destruct (IH g (set_nth ts i t1) Hf (set_nth_plain ts i t1 Hp Hp1)) as (ts' & Hi & HF).
+      exists ts'. split; [exact Hi|]. eapply Forall2_solo_step; eassumption.
+Qed.
+
+Lemma Forall2_nth_error {A B} (R : A -> B -> Prop) l l' i y :
+  Forall2 R l l' -> nth_error l' i = Some y -> exists x, nth_error l i = Some x /\ R x y.
+Proof.
+  intros HF. revert i. induction HF as [|a b l l' Hab HF IH]; intros i Hn; [destruct i; discriminate|].
+  destruct i as [|i]; cbn [nth_error] in *.
+  - injection Hn as <-. exists a. split; [reflexivity|exact Hab].
+  - apply IH. exact Hn.
+Qed.
+
+(* ... hence every thread that has finished observed what the interpreter says
+   it observes alone, whatever the other threads did and however the steps were
+   interleaved. *)
+Lemma interleaving_n_matches_alone d sched g (ps : list (tstate * prog)) g' ts' :
+  flag g = true ->
+  interleave_n d sched g (map (fun tp => thread_of (fst tp) (snd tp)) ps) = (g', ts') ->
+  g' = g /\
+  forall i t', nth_error ts' i = Some t' -> finished t' = true ->
+    exists tsi p, nth_error ps i = Some (tsi, p) /\ final_of (run_prog g tsi p) t'.
+Proof.
+  intros Hf Hi.
+  assert (Hp : Forall plain (map (fun tp => thread_of (fst tp) (snd tp)) ps)).
+  { rewrite Forall_map. rewrite Forall_forall. intros [tsi p] _. apply plain_thread_of. }
+  destruct (interleaving_n_independent d sched g _ Hf Hp) as (ts2 & Hi2 & HF).
+  rewrite Hi in Hi2. injection Hi2 as -> ->. split; [reflexivity|].
+  intros i t' Hn Hfin.
+  destruct (Forall2_nth_error _ _ _ _ _ HF Hn) as (t0 & Hn0 & [n ->]).
+  rewrite nth_error_map in Hn0. destruct (nth_error ps i) as [[tsi p]|] eqn:Ep; [|discriminate].
+  cbn [option_map fst snd] in Hn0. injection Hn0 as <-.
+  exists tsi, p. split; [reflexivity|]. apply alone_is_run_prog. exact Hfin.
+Qed.
+
+(* ------------------------------------------------------------------------ *)
 (* The first installation, raced.  Both threads begin with
    panic_catcher_set_hook(); the flag is not set yet and [h] is the hook the
    application installed before. *)
